@@ -20,9 +20,10 @@ pub mod sha3;
 pub mod storage_key;
 pub mod storage_write;
 
+#[cfg(not(smlxl_storage_layout_extractor_verif))]
+use std::collections::HashSet;
 use std::{
     any::{Any, TypeId},
-    collections::HashSet,
     fmt::Debug,
     ops::Deref,
 };
@@ -30,6 +31,8 @@ use std::{
 use derivative::Derivative;
 use downcast_rs::Downcast;
 
+#[cfg(smlxl_storage_layout_extractor_verif)]
+use crate::verif::collections::HashSet;
 use crate::{
     error::unification::Result,
     tc::{
